@@ -349,7 +349,13 @@ pub enum Act {
     /// run the real `migrate` entry point (cw1-subkeys) on the current storage: nobody's call, so
     /// nothing the queries report may change
     Migrate,
+    /// store an older cw2 version (index into OLD_VERSIONS) and run the real `migrate`: an upgrade
+    /// is nobody's call either, every query must answer as before; exploration continues from
+    /// the migrated state
+    MigrateOld { version: u8 },
 }
+
+pub const OLD_VERSIONS: [&str; 2] = ["0.13.4", "1.1.2"];
 
 /// who may be granted what by the driver
 #[derive(Clone, Debug)]
@@ -398,6 +404,8 @@ pub struct Cfg {
     /// coins attached to IncreaseAllowance / DecreaseAllowance / SetPermissions; anything but `GF::None`
     /// is only offered to callers that are not current admins
     pub grant_funds: Vec<GF>,
+    /// chain-level (migration) admin of the instantiated proxy: an address with no rights inside it
+    pub wasm_admin: Option<u8>,
 }
 
 /// funds attached to a grant call
@@ -441,6 +449,7 @@ impl Cfg {
             exec_funds: vec![vec![]],
             exec_funded_max_len: 1,
             grant_funds: vec![GF::None],
+            wasm_admin: None,
         }
     }
     pub fn addr(&self, i: u8) -> String {
@@ -803,7 +812,7 @@ impl Cw1Model {
                     msgs: msgs.iter().map(|m| to_cosmos(&cfg.actors, m)).collect(),
                 },
             ),
-            Act::Probe { .. } | Act::Advance | Act::Migrate => return None,
+            Act::Probe { .. } | Act::Advance | Act::Migrate | Act::MigrateOld { .. } => return None,
         })
     }
 
@@ -938,7 +947,7 @@ impl Cw1Model {
         }
         let actor: u8 = match a {
             Act::Inc { by, .. } | Act::Dec { by, .. } | Act::SetPerm { by, .. } | Act::Exec { by, .. } | Act::UpdateAdmins { by, .. } | Act::Freeze { by } => *by,
-            Act::Probe { .. } | Act::Advance | Act::Migrate => return,
+            Act::Probe { .. } | Act::Advance | Act::Migrate | Act::MigrateOld { .. } => return,
         };
         let by_admin = rpre.is_admin(actor);
         // the calls that may alter grants: the action itself, or - for an Execute whose relayed
@@ -1061,6 +1070,7 @@ fn label(a: &Act) -> String {
         Act::Probe { msg, .. } => format!("CanExecute-vs-Execute[{}]", msg.kind()),
         Act::Advance => "AdvanceBlock".into(),
         Act::Migrate => "Migrate".into(),
+        Act::MigrateOld { .. } => "MigrateFromOlderVersion".into(),
     }
 }
 
@@ -1088,6 +1098,9 @@ impl Model for Cw1Model {
             }
         }
         let out = w.instantiate(vt(cfg.kind), &proxy_addr(), &mc::addr("creator"), &to_json_vec(&msg).unwrap(), &[]);
+        if let Some(x) = cfg.wasm_admin {
+            w.set_wasm_admin(&proxy_addr(), Some(&cfg.addr(x)));
+        }
         let mut v = vec![];
         if !out.ok() {
             v.push(Violation::new(&self.cl("instantiate_failed"), out.err()));
@@ -1222,6 +1235,9 @@ impl Model for Cw1Model {
         }
         if cfg.migrate_probe && vt(cfg.kind).migrate.is_some() {
             out.push(Act::Migrate);
+            for i in 0..OLD_VERSIONS.len() as u8 {
+                out.push(Act::MigrateOld { version: i });
+            }
         }
         out
     }
@@ -1289,9 +1305,16 @@ impl Model for Cw1Model {
                     violations: v,
                 };
             }
-            Act::Migrate => {
+            Act::Migrate | Act::MigrateOld { .. } => {
                 let mut w = s.w.clone();
+                if let Act::MigrateOld { version } = a {
+                    let inst = w.contracts.get_mut(&proxy).unwrap();
+                    cw2::set_contract_version(&mut inst.store, "crates.io:cw1-subkeys", OLD_VERSIONS[*version as usize]).unwrap();
+                }
                 let out = w.migrate(&proxy, b"{}");
+                if let (Act::MigrateOld { .. }, false) = (a, out.ok()) {
+                    v.push(Violation::new(&self.cl("migrate_changes_nothing"), format!("{a:?}: migrate from an older version failed: {}", out.err())));
+                }
                 let store_same = w.contracts[&proxy].store == s.w.contracts[&proxy].store;
                 let pre = &*s.obs;
                 let obs: Arc<Obs> = if store_same {
@@ -1305,7 +1328,7 @@ impl Model for Cw1Model {
                         }
                     }
                 };
-                if !out.ok() && !store_same {
+                if !out.ok() && !store_same && matches!(a, Act::Migrate) {
                     v.push(Violation::new(&self.cl("refused_call_changes_nothing"), format!("migrate failed ({}) but the state changed", out.err())));
                 }
                 if pre.admins != obs.admins || pre.mutable != obs.mutable {
@@ -1322,9 +1345,33 @@ impl Model for Cw1Model {
                     ));
                 }
                 if pre.allow != obs.allow || pre.perms != obs.perms || pre.listed != obs.listed {
-                    let d = "Migrate (no admin's call) changed what the Allowance / AllAllowances / Permissions queries report".to_string();
+                    let d = format!(
+                        "{a:?} (no admin's call) changed what the Allowance / AllAllowances / Permissions queries report: allowances {:?} -> {:?}, listing {:?} -> {:?}, permissions {:?} -> {:?}",
+                        pre.allow, obs.allow, pre.listed, obs.listed, pre.perms, obs.perms
+                    );
                     v.push(Violation::new("C17.allowance_altered_only_by_admin", d.clone()));
-                    v.push(Violation::new("C08.changed_only_by_admin_grant_or_own_spending", d));
+                    v.push(Violation::new("C08.changed_only_by_admin_grant_or_own_spending", d.clone()));
+                    v.push(Violation::new("C07.migrate_changes_nothing", d.clone()));
+                    v.push(Violation::new("C16.migrate_changes_nothing", d));
+                }
+                if !store_same {
+                    // CanExecute must answer as before for every probed (sender, message)
+                    for &sender in &cfg.probe_senders {
+                        for m in &cfg.probe_msgs {
+                            let qm = QueryMsg::CanExecute {
+                                sender: cfg.addr(sender),
+                                msg: to_cosmos(&cfg.actors, m),
+                            };
+                            let before: Result<CanExecuteResponse, String> = self.q(&s.w, &qm);
+                            let after: Result<CanExecuteResponse, String> = self.q(&w, &qm);
+                            if before.as_ref().map(|r| r.can_execute).ok() != after.as_ref().map(|r| r.can_execute).ok() {
+                                v.push(Violation::new(
+                                    &self.cl("migrate_changes_nothing"),
+                                    format!("{a:?}: CanExecute for {} / {:?} answered {:?} before and {:?} after", cfg.label(sender), m, before.map(|r| r.can_execute), after.map(|r| r.can_execute)),
+                                ));
+                            }
+                        }
+                    }
                 }
                 self.check_state(h, t, &s.r, &obs, &mut v);
                 self.filter(&mut v);
@@ -1379,6 +1426,7 @@ impl Model for Cw1Model {
         let by_admin = rpre.is_admin(by);
         let relayed = out.top.as_ref().map(|x| x.messages.clone()).unwrap_or_default();
         let mut io = InnerOutcome::default();
+        let strict = cfg.prop == "C07";
         match a {
             Act::Inc { spender, .. } => io.grants.push((*spender, by_admin, GK::Inc)),
             Act::Dec { spender, .. } => io.grants.push((*spender, by_admin, GK::Dec)),
@@ -1386,6 +1434,10 @@ impl Model for Cw1Model {
             _ => {}
         }
         match a {
+            // C07 holds the relay against what current admins really granted: there the reference does
+            // not follow a grant or admin-list call it forbids (the divergence is the violation)
+            Act::UpdateAdmins { .. } | Act::Freeze { .. } if strict && !(rpre.mutable && by_admin) => {}
+            Act::Inc { .. } | Act::Dec { .. } | Act::SetPerm { .. } if strict && !by_admin => {}
             Act::UpdateAdmins { admins, .. } => {
                 r.admins = admins.clone();
                 let want: BTreeSet<String> = admins.iter().map(|i| cfg.addr(*i)).collect();
@@ -1484,7 +1536,7 @@ impl Model for Cw1Model {
                     }
                 }
             }
-            Act::Probe { .. } | Act::Advance | Act::Migrate => unreachable!(),
+            Act::Probe { .. } | Act::Advance | Act::Migrate | Act::MigrateOld { .. } => unreachable!(),
         }
         if let (true, Act::Exec { msgs, .. }) = (cfg.dispatch, a) {
             // the relayed messages were executed: follow the self-addressed ones
